@@ -106,7 +106,9 @@ def constructs(seed=0):
                     D.cls('Dt', [D.ctor('Dt')], v=1, b=T('gt::Tb', t=[T('ns::Pose')])),
                     D.cls('Dtt', [D.ctor('Dtt')], tpl=[D.tparam('T', [T('int'), T('ns::Rot')])], v=1, b=T('gt::Tb', t=[T('T')]))]
     c['vars'] = [D.var(T('double', 1), 'kGravity', '-9.81'), D.var(T('int'), 'counter'), D.var(T('string', 1), 'kName', '"nm"'),
-                 D.ns('sub', [D.var(T('int', 1), 'kSub', '42'), D.var(T('double'), 'plain')])]
+                 D.ns('sub', [D.var(T('int', 1), 'kSub', '42'), D.var(T('double'), 'plain'),
+                              # an initialiser that is a single identifier from somewhere else (a macro of <cstdlib>)
+                              D.var(T('int', 1), 'kMaxRand', 'RAND_MAX')])]
     c['serial'] = [D.cls('Se', [D.ctor('Se'), D.method(single(T('void')), 'serialize', []),
                                 D.method(single(T('void')), 'print', [arg(T('string', 1, '&'), 's', '""')], 1)]),
                    D.cls('Sp', [D.method(single(T('void')), 'serializable', [], 1), D.method(single(T('void')), 'print', [], 1)]),
@@ -131,7 +133,11 @@ def constructs(seed=0):
                                      D.prop(T('gt::This::Sub'), 'sub')],
                               tpl=[D.tparam('T', [T('ns::Pose'), T('double')])]),
                         D.cls('Tn', [D.enum('Sub', ['S1']), D.method(single(T('gt::This::Sub')), 'getSub', [], 1),
-                                     D.static(single(T('This')), 'Make', [])])]
+                                     D.static(single(T('This')), 'Make', []),
+                                     # `This` as an argument of non-templated members of a non-templated class
+                                     D.ctor('Tn'), D.ctor('Tn', [arg(T('This', 1, '&'), 'o')]),
+                                     D.method(single(T('void')), 'setSub', [arg(T('gt::This::Sub'), 's'), arg(T('This', 0, '*'), 'p')]),
+                                     D.static(single(T('int')), 'Cmp', [arg(T('This', 1, '&'), 'a'), arg(T('This', 0, '@'), 'b')])])]
     kws = ['lambda', 'None', 'def', 'del', 'global', 'import', 'pass', 'yield', 'async', 'await', 'in', 'is']
     c['keywords'] = [D.cls('Kw', [D.method(single(T('int')), n, [arg(T('int'), 'a')]) for n in kws] +
                            [D.static(single(T('int')), 'from', [])])] + \
